@@ -110,10 +110,11 @@ def Info.has (i : Info) (n : Sym) : Bool :=
 def resolveUseMangled (segs : List Name) (pre : List Name) (i : Info) : Sym :=
   (resolveQualifiedPath segs segs pre i.has).1
 
-/-- `register_alias` -/
+/-- `register_alias`.  Since /repo c6822e4 the exported name of a re-export is as visible as its target *at the
+moment the `use` is processed* (a target without an entry counts as public); before, it was always public. -/
 def registerAlias (i : Info) (pub : Bool) (pre : List Name) (a : Name) (m : Sym) : Info :=
   let i := { i with alias := ([a], m) :: i.alias }
-  if pub then { i with vis := (pre ++ [a], true) :: i.vis, alias := (pre ++ [a], m) :: i.alias } else i
+  if pub then { i with vis := (pre ++ [a], (get? i.vis m).getD true) :: i.vis, alias := (pre ++ [a], m) :: i.alias } else i
 
 /-- `process_use_statement` -/
 def processUse (pub : Bool) (path : List Name) (t : UseTarget) (pre : List Name) (i : Info) : Info :=
@@ -230,11 +231,23 @@ def convertVar (c : RCtx) (name : Sym) : Sym × List Err :=
         | some m => (m, [])
         | none => (name, [])
 
-/-- `convert_qualified_var` (the operator-intrinsic marker namespace is not modelled) -/
+/-- `convert_qualified_var` (the operator-intrinsic marker namespace is not modelled).  The whole check sits inside
+`if resolved_path.len() > 1 && let Some(is_public) = visibility_map.get(&resolved_name)`; `extract_path_from_mangled` is the
+identity on segment lists. -/
 def convertQVar (c : RCtx) (segs : List Name) : Sym × List Err :=
   let r := resolveQualifiedPath segs segs c.cur c.known
   let lookup := aliasChain c.info.alias r.1
-  (lookup, if r.2.length > 1 then privErr c.cur c.info.vis r.1 r.2 else [])
+  (lookup,
+    if r.2.length > 1 then
+      match get? c.info.vis r.1 with
+      | none => []
+      | some pub =>
+        if !pub && !isWithinHierarchy c.cur r.2 then [⟨r.2.dropLast, r.2.getLast?⟩]
+        else if lookup ≠ r.1 ∧ lookup.length > 1 then
+          -- the path names a re-export: the member it leads to is checked as well (since /repo 3b64798)
+          privErr c.cur c.info.vis lookup lookup
+        else []
+    else [])
 
 /-- `convert_expr`: module context and scope stack are threaded as arguments -/
 def convertExpr (info : Info) (known : Sym → Bool) : List Name → List (List Sym) → Expr → Expr × List Err
